@@ -12,6 +12,9 @@ for d in sorted(glob.glob(os.path.join(os.path.dirname(os.path.dirname(os.path.a
     hits.sort(key=lambda h: not h.startswith(own))
     miss = [k.split(":")[0] for k, v in ck.items() if not (v["exit"] == 1 and v["violations"])]
     res = ", ".join(hits) if hits else ("**missed** by " + ", ".join(miss))
+    if m.get("superseded") and not hits:
+        res = "n/a: no longer breaks the property on the repaired tree (see meta.json)"
+        n -= 1
     summ = " ".join(m["summary"].split()).replace("|", "/")
     needs = " ".join(m.get("needs", "").split()).replace("|", "/")
     cut = lambda t, k: t if len(t) <= k else t[: t.rfind(" ", 0, k)] + " ..."
